@@ -218,6 +218,11 @@ def exercise_conventions(datasets) -> None:
         lambda: ArakawaC(datasets['shoc_standard'].copy(), coordinate_names={
             'face': ('y_centre', 'x_centre'), 'left': ('y_left', 'x_left'), 'back': ('y_back', 'x_back'),
             'node': ('y_grid', 'x_grid')}).grid_size,
+        # the SHOC class itself given names for a file that calls its coordinates something else
+        lambda: ShocStandard(datasets['shoc_standard'].copy().rename({'y_centre': 'lat_c', 'x_centre': 'lon_c'}),
+                             coordinate_names={**shoc_names, 'face': ('lat_c', 'lon_c')}).polygons,
+        lambda: ShocStandard(datasets['shoc_standard'].copy().rename({'y_centre': 'lat_c', 'x_centre': 'lon_c'}),
+                             coordinate_names={'face': ('lat_c', 'lon_c')}).grid_size,
         lambda: UGrid(datasets['ugrid'].copy()).polygons,
         lambda: CFGrid1D(datasets['ugrid'].copy(), latitude='Mesh2_node_y', longitude='Mesh2_node_x').grid_size,
     ]
